@@ -100,7 +100,7 @@ Section Agreement.
   (* the counters of P_i are the global counters *)
   Lemma cnt_view_glob w : cnt_view p q g h n i B P w = cnt_glob n B w.
   Proof.
-    unfold cnt_view, cnt_glob. apply zsum_ext. intros j _.
+    unfold cnt_view, cnt_view_m, cnt_glob. apply zsum_ext. intros j _.
     destruct (Z.eqb_spec j i) as [->|]; [|reflexivity]. fold mine. now rewrite own_accused.
   Qed.
 End Agreement.
@@ -123,8 +123,8 @@ Theorem qual_view_is_global p q g h n t i B P :
   ans_glob p q g h n B i = false ->            (* its own published answers pass the public check (honest dealer) *)
   qual_view p q g h n t i B P = qual_glob p q g h n t B.
 Proof.
-  intros Hn Hi Hown Hans. unfold qual_view, qual_glob. apply filter_ext_in. intros j Hj. f_equal.
-  unfold disq_view, disq_glob. rewrite cnt_view_glob by assumption.
+  intros Hn Hi Hown Hans. unfold qual_view, qual_view_m, qual_glob. apply filter_ext_in. intros j Hj. f_equal.
+  unfold disq_view_m, disq_glob. fold (cnt_view p q g h n i B P j). rewrite cnt_view_glob by assumption.
   destruct (Z.eqb_spec j i) as [->|Hne].
   - rewrite (own_not_bad p q g h n i B P) by assumption. rewrite Hans. now rewrite orb_false_r.
   - f_equal. unfold ans_of, ans_glob, viewC. destruct (Z.eqb_spec j i); [contradiction|]. apply ans_flag_indep.
@@ -141,13 +141,13 @@ Proof. intros. rewrite !qual_view_is_global by assumption. reflexivity. Qed.
 
 (* ---- the disqualification rule ----------------------------------------------------------------------------- *)
 Lemma disq_not_in_qual p q g h n t i B P j : disq_view p q g h n t i B P j = true -> ~ In j (qual_view p q g h n t i B P).
-Proof. intros D H. unfold qual_view in H. apply filter_In in H. destruct H as [_ H]. rewrite D in H. discriminate. Qed.
+Proof. intros D H. unfold disq_view in D. unfold qual_view, qual_view_m in H. apply filter_In in H. destruct H as [_ H]. rewrite D in H. discriminate. Qed.
 
 (* more than t complaints (as counted by P_i) disqualify, for every party including P_i itself *)
 Theorem too_many_complaints_disqualify p q g h n t i B P j :
   t < cnt_view p q g h n i B P j -> ~ In j (qual_view p q g h n t i B P).
 Proof.
-  intros H. apply disq_not_in_qual. unfold disq_view. destruct (j =? i); [lia|].
+  intros H. apply disq_not_in_qual. unfold disq_view, disq_view_m. fold (cnt_view p q g h n i B P j). destruct (j =? i); [lia|].
   destruct (Z.ltb_spec t (cnt_view p q g h n i B P j)); [|lia]. now rewrite orb_true_r.
 Qed.
 
@@ -168,7 +168,7 @@ Theorem own_complaint_counts p q g h n i B P w : 0 <= i < n ->
   cnt_view p q g h n i B P w =
   b2z (memz w (dkg_mine p q g h n i B P)) + zsum (fun j => if j =? i then 0 else b2z (memz w (acc_of n B j))) (parties n).
 Proof.
-  intros Hi. unfold cnt_view. rewrite (zsum_split _ (parties n) i (NoDup_parties n)) by now apply in_parties.
+  intros Hi. unfold cnt_view, cnt_view_m. rewrite (zsum_split _ (parties n) i (NoDup_parties n)) by now apply in_parties.
   rewrite Z.eqb_refl. f_equal. apply zsum_ext. intros j _. destruct (j =? i); reflexivity.
 Qed.
 
@@ -228,11 +228,11 @@ Theorem final_pair_consistent p q g h n t i B P j : 0 <= j < n ->
   dkg_complains p q g h i B P j = false \/ (j <> i /\ ans_mentions (S (Z.to_nat n)) n i (b_ans (getB B j)) = true) ->
   share_okb p g h (viewC p q i j B) (i + 1) (fst (final_pair p q g h n t i B P j)) (snd (final_pair p q g h n t i B P j)) = true.
 Proof.
-  intros Hj Hq H. unfold qual_view in Hq. apply filter_In in Hq. destruct Hq as [_ Hq]. apply negb_true_iff in Hq.
+  intros Hj Hq H. unfold qual_view, qual_view_m in Hq. apply filter_In in Hq. destruct Hq as [_ Hq]. apply negb_true_iff in Hq.
   assert (Hok : dkg_complains p q g h i B P j = false ->
                 share_okb p g h (viewC p q i j B) (i + 1) (fst (rx_pair q (getP P j))) (snd (rx_pair q (getP P j))) = true).
   { unfold dkg_complains. intros C. apply orb_false_elim in C. destruct C as [C _]. now apply negb_false_iff in C. }
-  unfold final_pair, disq_view in *. destruct (Z.eqb_spec j i) as [->|Hne].
+  unfold final_pair, final_pair_m, disq_view_m in *. fold (cnt_view p q g h n i B P j) in *. destruct (Z.eqb_spec j i) as [->|Hne].
   - cbn [orb]. destruct H as [H|[H _]]; [now apply Hok|congruence].
   - cbn [orb]. apply orb_false_elim in Hq. destruct Hq as [Hq Hans]. apply orb_false_elim in Hq. destruct Hq as [_ Hc]. rewrite Hc.
     unfold ans_of in *. apply ans_own_pair; [exact Hans|].
@@ -297,10 +297,14 @@ Section Aggregate.
   Proof.
     intros Hi H. set (Q := qual_view p q g h n t i B P) in *.
     assert (HQ : forall j, In j Q -> 0 <= j < n).
-    { intros j Hj. unfold Q, qual_view in Hj. apply filter_In in Hj. destruct Hj as [Hj _]. now apply in_parties. }
+    { intros j Hj. unfold Q, qual_view, qual_view_m in Hj. apply filter_In in Hj. destruct Hj as [Hj _]. now apply in_parties. }
     destruct (agg_fold (i + 1) (fun j => viewC p q i j B) (fun j => fst (final_pair p q g h n t i B P j))
                 (fun j => snd (final_pair p q g h n t i B P j)) Q H) as (N1 & N2 & E).
-    rewrite <- E. unfold view_x. cbn [fst snd]. fold Q.
+    rewrite <- E.
+    change (view_x p q g h n t i B P) with
+      (sum_qual q Q (map (fun j => fst (final_pair p q g h n t i B P j)) (parties n)),
+       sum_qual q Q (map (fun j => snd (final_pair p q g h n t i B P j)) (parties n))).
+    cbn [fst snd].
     pose proof (sum_qual_range q Q (map (fun j => fst (final_pair p q g h n t i B P j)) (parties n)) ltac:(lia)) as R1.
     pose proof (sum_qual_range q Q (map (fun j => snd (final_pair p q g h n t i B P j)) (parties n)) ltac:(lia)) as R2.
     rewrite !powm_spec by lia.
